@@ -66,6 +66,16 @@ impl DiffFlagDefs {
             _ => return Err(invalid_definition()),
         };
 
+        // a name can only ever refer to one bit, or else labels would not be able to roundtrip
+        if let Some(&old_index) = self.by_name.get(&name) {
+            if old_index != index.value as FlagIndex {
+                return Err(error!(
+                    message("difficulty flag name '{}' is already used for flag {}", name, old_index),
+                    primary(str, "name already in use"),
+                ));
+            }
+        }
+
         self.define_flag(name, index.value as _, enable);
         Ok(())
     }
